@@ -136,16 +136,21 @@ def finalEnv (o : Opts) (new : Env) : Env :=
 /-- under `-n` the `SETUP_…` variables are hidden unless `-vv` -/
 def hidden (o : Opts) (k : Str) : Bool := o.noaction && !o.verbose2 && containsSub sSETUP_ k
 
+/-- body of the loop over `os.environ.items()` -/
+def setCmd? (o : Opts) (old : OldEnv) (p : Str × Str) : Option Cmd :=
+  if old.lookup p.1 == some (some p.2) then none else if hidden o p.1 then none else some (Cmd.setVar p.1 p.2)
+
+/-- body of the loop over `oldEnviron.keys()` -/
+def unsetCmd? (o : Opts) (new : Env) (p : Str × Option Str) : Option Cmd :=
+  if !o.isEups && isProtected p.1 then none
+  else if new.has p.1 then none
+  else if hidden o p.1 then none
+  else some (Cmd.unsetVar p.1)
+
 /-- the two loops over `os.environ.items()` and `oldEnviron.keys()`; `new` is the environment both loops see
 (for `unsetup eups`: after the three variables have been dropped, `finalEnv`) -/
 def emitVarsOn (o : Opts) (old : OldEnv) (new : Env) : List Cmd :=
-  (new.filterMap fun (k, v) =>
-    if old.lookup k == some (some v) then none else if hidden o k then none else some (Cmd.setVar k v)) ++
-  (old.filterMap fun (k, _) =>
-    if !o.isEups && isProtected k then none
-    else if new.has k then none
-    else if hidden o k then none
-    else some (Cmd.unsetVar k))
+  new.filterMap (setCmd? o old) ++ old.filterMap (unsetCmd? o new)
 
 def emitVars (o : Opts) (old : OldEnv) (new : Env) : List Cmd := emitVarsOn o old (finalEnv o new)
 
